@@ -45,6 +45,17 @@ LEAVES = [
     (bip("unify", cplx("f", lst([X0])), X0), "f([$X]) = $X"),
     # a goal without arguments: Display writes go(), which must parse back
     (call(cplx("go")), "go()"),
+    # non-ASCII letters in functors and arguments (character positions and byte positions differ), long atoms
+    (call(cplx("ville", atom("\u00e9"), atom("bc"))), "ville(\u00e9, bc)"),
+    (call(cplx("p\u00e8re", X0, Y0)), "p\u00e8re($X, $Y)"),
+    (call(cplx("capital", atom("Qu\u00e9bec"), atom("Qu\u00e9bec City"))), "capital(Qu\u00e9bec, Qu\u00e9bec City)"),
+    # (CJK only in arguments: the tokenizer's letters for functors are Latin, Greek and Cyrillic - letter_number_hyphen)
+    (call(cplx("city", atom("\u6771\u4eac"), X0)), "city(\u6771\u4eac, $X)"),
+    (op("not", call(cplx("p\u00e8re", atom("\u00c9ric"), X0))), "not(p\u00e8re(\u00c9ric, $X))"),
+    (bip("unify", X0, atom("Zo\u00eb")), "$X = Zo\u00eb"),
+    (bip("unify", cplx("f", atom("\u03b1\u03b2\u03b3")), X0), "f(\u03b1\u03b2\u03b3) = $X"),
+    (call(cplx("a_functor_of_more_than_thirty_two_characters_in_all", atom("an_atom_of_more_than_thirty_two_characters_too"), X0)),
+     "a_functor_of_more_than_thirty_two_characters_in_all(an_atom_of_more_than_thirty_two_characters_too, $X)"),
 ]
 
 # goal trees: ("leaf", k) | ("and", [..]) | ("or", [..])
